@@ -71,6 +71,9 @@ Section Keyword.
     && negb (word_before w pos) && negb (word_at w (pos + length value)).
 End Keyword.
 
+Definition first_is (P : N -> bool) (v : str) : bool := match v with c :: _ => P c | [] => false end.
+Definition last_is (P : N -> bool) (v : str) : bool := first_is P (rev v).
+
 (* characters that a Python regex compiled with re.VERBOSE reads as themselves *)
 Definition regex_plain_c (c : N) : bool :=
   ascii_word c ||
@@ -338,6 +341,32 @@ Definition spec_build (kw : str -> bool) (a : ast) : gdump :=
   let k := match find_term n_KEYWORD (a_terms a) with Some _ => Some kw | None => None end in
   mkDump (map (fix_keyword k) ts)
          (flat_map (fun r => map (fun alt => (r_name r, map (spec_item a) alt)) (r_alts r)) (a_rules a)).
+
+(* Hypotheses of the positive theorem: what the rest of the grammar must look like, and
+   which inline texts the name-by-text scheme can carry. *)
+Definition declared_strs (a : ast) : list str :=
+  flat_map (fun t => match t_rec t with RStr v => [v] | RRegex _ => [] end) (a_terms a).
+Fixpoint nodup_b (l : list str) : bool :=
+  match l with [] => true | x :: r => negb (mem x r) && nodup_b r end.
+Definition rule_names (a : ast) : list str := map r_name (a_rules a).
+Definition ctrl_free (v : str) : bool := negb (existsb (fun c => (c =? 10) || (c =? 9)) v).
+Definition text_ok (a : ast) (v : str) : bool :=
+  negb (has_dot v) && ctrl_free v && negb (reserved v) && negb (str_eqb v n_KEYWORD)
+  && negb (mem v (rule_names a)) && negb (mem v (term_names (a_terms a)))
+  && negb (mem v (declared_strs a)).
+Definition item_ok (a : ast) (i : item) : bool :=
+  match i with
+  | IStr v => text_ok a v
+  | IRef n => mem n (rule_names a) || mem n (term_names (a_terms a))
+  end.
+Definition keyword_decl_ok (a : ast) : bool :=
+  match find_term n_KEYWORD (a_terms a) with Some (mkT _ (RStr _)) => false | _ => true end.
+Definition decl_ok (a : ast) : bool :=
+  negb (names_reserved a) && nodup_b (term_names (a_terms a)) && nodup_b (declared_strs a)
+  && forallb (fun n => negb (has_dot n)) (term_names (a_terms a) ++ rule_names a)
+  && forallb (fun n => negb (mem n (term_names (a_terms a)))) (rule_names a)
+  && keyword_decl_ok a.
+Definition nice (a : ast) : bool := decl_ok a && forallb (item_ok a) (all_items a).
 
 (* ------------------------------------------------------------------ *)
 (* Order of the actions of a state and implicit finish flags                            *)
